@@ -1,0 +1,28 @@
+//go:build verif
+
+package gomavlib
+
+import (
+	"io"
+	"time"
+)
+
+// This file exists only when the "verif" build tag is set. It lets an external verification
+// harness replace two unexported package variables that the in-package tests also overwrite.
+
+// VerifSetReconnectPeriod replaces the delay between connection attempts of client-type
+// endpoints and returns a function that restores the previous value.
+// It must not be called while a Node is running.
+func VerifSetReconnectPeriod(d time.Duration) (restore func()) {
+	old := reconnectPeriod
+	reconnectPeriod = d
+	return func() { reconnectPeriod = old }
+}
+
+// VerifSetSerialOpenFunc replaces the function used to open serial devices and returns a
+// function that restores the previous one. It must not be called while a Node is running.
+func VerifSetSerialOpenFunc(f func(device string, baud int) (io.ReadWriteCloser, error)) (restore func()) {
+	old := serialOpenFunc
+	serialOpenFunc = f
+	return func() { serialOpenFunc = old }
+}
